@@ -397,6 +397,8 @@ class SpooledStringIO(SpooledIOBase):
 
     def read(self, n=-1):
         self._checkClosed()
+        if n is None:
+            n = -1
         ret = self.buffer.reader.read(n, n)
         self._tell = self.tell() + len(ret)
         return ret
